@@ -391,6 +391,15 @@ func (mem *CListMempool) resCbFirstTime(
 				return
 			}
 
+			// The cache may have evicted a transaction that is still in the pool
+			// (cache smaller than the pool, or cache disabled): never hold it twice.
+			if e, ok := mem.txsMap.Load(types.Tx(tx).Key()); ok {
+				memTx := e.(*clist.CElement).Value.(*mempoolTx)
+				memTx.senders.LoadOrStore(peerID, true)
+				mem.logger.Debug("transaction already in the mempool, not adding it again", "tx", types.Tx(tx).Hash())
+				return
+			}
+
 			memTx := &mempoolTx{
 				height:    mem.height,
 				gasWanted: r.CheckTx.GasWanted,
